@@ -10,6 +10,7 @@
 -/
 import Mpir.Model.AllocSafeMpz3
 import Mpir.Model.Rand
+import Mpir.Model.Conv
 namespace Mpir.AllocSafe
 open Mpir
 open Mpir.Mpz (sgn)
@@ -497,6 +498,29 @@ def sqrtrem (rminus : Nat) (s : St) (root rem op : Nat) : Option St :=
     else some (sqrtremTail s root rem (Src.ptr op_ptr) n root_size)
 
 def mpz_sqrtrem (s : St) (root rem op : Nat) : Option St := sqrtrem 0 s root rem op
+
+/-! ### mpz_set_d — mpz/set_d.c (LIMBS_PER_DOUBLE = 2) -/
+
+/-- mpz_set_d (r, d), set_d.c:38-108; `d` = the 64-bit pattern of the double; `none` = __gmp_invalid_operation (NaN, Inf).
+    `rn - minus` = the size requested (`rn` in the C: `if (ALLOC(r) < rn) _mpz_realloc (r, rn)`). -/
+def set_d (minus : Nat) (s : St) (r : Nat) (d : Nat) : Option St :=
+  if Conv.isNaN d || Conv.isInf d then none                                   -- set_d.c:46-48
+  else
+    let negative := Conv.isNeg d                                              -- :50
+    let t := Conv.extract_double (Conv.absBits d)                             -- :53 rn = __gmp_extract_double (tp, d)
+    let rn := t.2.2.toNat                                                     -- :58-59 `if (rn <= 0) rn = 0`
+    let s := MPZ_REALLOC s r (rn - minus)                                     -- :55-56
+    let rp := s.PTR r                                                         -- :61
+    let s :=
+      if rn == 0 then s                                                       -- :103 case 0
+      else if rn == 1 then s.store rp 0 t.2.1                                 -- :74-76 case 1: rp[0] = tp[1]
+      else
+        let s := MPN_ZERO s rp (rn - 2)                                       -- :66 default: MPN_ZERO (rp, rn - 2)
+        let s := s.store rp (rn - 2 + 1) t.2.1                                -- :71 rp[1] = tp[1] (rp += rn - 2)
+        s.store rp (rn - 2) t.1                                               -- :71 rp[0] = tp[0]
+    some (s.setSize r (sgn negative rn))                                      -- :107
+
+def mpz_set_d (s : St) (r : Nat) (d : Nat) : Option St := set_d 0 s r d
 
 /-! ### mpf: a destination of `PREC + 1` limbs that is never reallocated — mpf/urandomb.c
 
